@@ -49,6 +49,12 @@ CHECKS = {
         text="Real OMPParallelLoopTrans and OMPLoopTrans+OMPParallelTrans (no force) on every loop of the dependence family; FortranWriter lowers the directives and infers the data-sharing clauses, which are read back from the emitted text. The loop is executed symbolically under each of the 16 schedules of K=3 iterations (all set partitions of the iterations into threads x all serialisations that keep each thread's iterations in order): private variables are per-thread copies with arbitrary initial value, firstprivate copies start from the pre-region value, both persist across the iterations of a thread, everything else is one shared store. For each schedule z3 decides, for all inputs, that every shared variable ends equal to the serial run. The first violating schedule is replayed by emitting a sequential Fortran emulation of that schedule (identifier renaming in the real loop body) and running it and the serial program through gfortran.",
         note="Bounds: K=3 iterations (trip <= 3 assumed; covers thread counts 1..3 and any static/dynamic/guided assignment of 3 iterations), iteration-atomic interleavings only; values of private/firstprivate scalars after the region excluded; reduction/lastprivate clauses unsupported (skipped). Trusted: fparser2, z3, fsym, the clause semantics of DESIGN Appendix B, gfortran for replay.",
         ref="5/C09"),
+    "C11": dict(
+        level="other", engine="fsym",
+        technique="SMT satisfiability of the path guard of every memory event of the symbolically executed statement decides the may-read / may-write sets, which the access types reported by the real VariablesAccessInfo must cover",
+        text="VariablesAccessInfo is computed by the real code for every statement of a generated statement family (assignments with nested subscripts and index arrays, structure and nested structure-array members, sections, WHERE, loops with expression bounds, branches, SELECT CASE, DO WHILE, calls with intent(in/out/inout) dummies, PURE subroutines, array-valued actual arguments, intrinsic subroutines, function references) and for every statement of the region family. The statement is executed symbolically from an arbitrary state with callees in the same file executed; z3 decides for each memory event whether its path guard is satisfiable. Every variable (or structure component) with a possible read must be reported with a read access type and every one with a possible write with a write type; in an assignment whose target is also read the reported read must precede the write.",
+        note="Bounds: loops unrolled to K=3/4, extents <= 3/4; intrinsic subroutines follow the standard's intents; module variables touched only inside a callee are not demanded; shape inquiries are not reads. Trusted: fparser2, z3, fsym.",
+        ref="5/C11"),
     "C12": dict(
         level="other", engine="fsym",
         technique="SMT queries over the symbolically executed region's memory-event trace: satisfiability of 'this read sees the incoming value' (upward-exposed read) and 'this write happens' decides the required input/output sets, compared with the real get_in_out_parameters lists",
